@@ -44,7 +44,7 @@ SHORT = [["E", "X"], [("C", "ok")], [("C", "raise")], ["E", "E", "X", "X"]]
 
 def floors(tier):
     q = tier == "quick"
-    return {"schedules": 15000 if q else 400000, "states": 10000 if q else 250000, "explorations_complete": 60 if q else 300, "line_events": 10**6, "real_guard_exits": 2000 if q else 20000, "real_overlap_observed": 1}
+    return {"schedules": 15000 if q else 400000, "states": 10000 if q else 250000, "explorations_complete": 60 if q else 300, "line_events": 10**6, "real_guard_exits": 2000 if q else 20000, "real_overlap_observed": 1, "calls_left:callback-changes-sigint-handler": 20, "calls_left:callback-raises": 20}
 
 
 def plan(tier, seed):
@@ -62,6 +62,7 @@ def plan(tier, seed):
             S.append({"kind": "dfs3", "part": i, "triples": [t for j, t in enumerate(triples) if j % 10 == i]})
     S += [{"kind": "rand", "stream": i, "n": 400 if q else 6000} for i in range(2 if q else 6)]
     S += [{"kind": "real", "stream": i, "threads": t, "n": 60 if q else 400} for i, t in enumerate((4, 8) if q else (2, 4, 8, 16))]
+    S += [{"kind": "leave", "stream": 0, "n": 20 if q else 200}]
     return S
 
 
@@ -94,6 +95,9 @@ def run_shard(spec, res):
     rng = random.Random(f"{spec['seed']}:{PID}:{kind}:{spec.get('stream')}:{spec.get('part')}")
     if kind == "real":
         real_shard(spec, res, rng)
+        return
+    if kind == "leave":
+        leave_shard(spec, res, rng)
         return
     from vf.mon import sched
 
@@ -201,6 +205,69 @@ def real_shard(spec, res, rng):
     finally:
         bz3._exit_z3 = orig_exit
         sys.setswitchinterval(old_si)
+        gc.enable()
+
+
+def leave_shard(spec, res, rng):
+    """every way a call can be left: returning, a solver error, an exception raised by the caller's own model callback,
+    and a callback that changes the process's SIGINT handler while the call is running (the guard's wrapper puts its
+    own handler back at the end).  After each call: nothing in progress, collector as before."""
+    import gc
+    import signal
+
+    import claripy
+    import claripy.backends.backend_z3 as bz3
+
+    b = claripy.backends.z3
+    x = claripy.BVS("lv", 32)
+
+    class Boom(Exception):
+        pass
+
+    def cb_raise(_m):
+        raise Boom
+
+    def cb_sigint(_m):
+        signal.signal(signal.SIGINT, lambda *_a: None)
+
+    def cb_nested(_m):
+        s2 = b.solver()
+        b.add(s2, [x == 7])
+        b.satisfiable(solver=s2, model_callback=cb_sigint if rng.random() < 0.5 else cb_raise)
+
+    ways = [("return", None), ("callback-raises", cb_raise), ("callback-changes-sigint-handler", cb_sigint), ("nested-call-left-by-exception", cb_nested)]
+    old_handler = signal.getsignal(signal.SIGINT)
+    try:
+        for i in range(spec["n"]):
+            for gc0 in (True, False):
+                for name, cb in ways:
+                    (gc.enable if gc0 else gc.disable)()
+                    signal.signal(signal.SIGINT, old_handler)
+                    s = b.solver()
+                    b.add(s, [x == i])
+                    how = "returned"
+                    try:
+                        op = rng.choice(["satisfiable", "eval"])
+                        if op == "satisfiable":
+                            b.satisfiable(solver=s, model_callback=cb)
+                        else:
+                            b.eval(x, 1, solver=s, model_callback=cb)
+                    except Boom:
+                        how = "Boom"
+                    except AssertionError:
+                        how = "AssertionError"
+                    except claripy.errors.ClaripyError as e:
+                        how = type(e).__name__
+                    res.count("calls_left:" + name)
+                    res.setadd("ways_calls_were_left", f"{name}:{how}")
+                    res.case(["leave", name, gc0, i], True)
+                    if gc.isenabled() != gc0 or bz3._active_z3_calls != 0:
+                        res.violation({"kind": "gc-guard", "mon": "M-gcinv", "what": "state after a call was left", "way": name, "left_by": how, "collector": gc.isenabled(), "expected_collector": gc0, "counter": bz3._active_z3_calls})
+                        # put the guard back so that the following cases are judged on their own
+                        bz3._active_z3_calls = 0
+                        bz3._gc_was_enabled = False
+    finally:
+        signal.signal(signal.SIGINT, old_handler)
         gc.enable()
 
 
